@@ -9085,6 +9085,13 @@ func (p *parser) visitStmts(stmts []js_ast.Stmt, kind stmtsKind) []js_ast.Stmt {
 			// statement, which also means that its name must be kept.
 			if p.currentScope.ContainsDirectEval || p.symbols[s.Fn.Name.Ref.InnerIndex].Flags.Has(ast.MustNotBeRenamed) {
 				if hoistedRef, ok := p.hoistedRefForSloppyModeBlockFn[s.Fn.Name.Ref]; ok {
+					// If the hoisted variable was merged into another declaration of
+					// the enclosing function, that declaration must keep the same name
+					// as this function for the hoisting to still work at run time
+					for target := p.symbols[hoistedRef.InnerIndex].Link; target != ast.InvalidRef; target = p.symbols[target.InnerIndex].Link {
+						p.symbols[target.InnerIndex].Flags |= ast.MustNotBeRenamed
+					}
+
 					// Merge the two identifiers back into a single one
 					p.symbols[hoistedRef.InnerIndex].Link = s.Fn.Name.Ref
 				}
